@@ -629,7 +629,7 @@ func checkC06(c *Ctx) {
 	r := &c06Runner{w: newWorker(obsBackground(c)), g: g}
 	lat := c06Lattice(c.Quick())
 	instrs := c06Instrs()
-	c.Rule = fmt.Sprintf("TLC generates the complete state graph of models/Z80Int.tla (MaxNest=3; %d distinct states, %d edges; model invariants AcceptClears, NotifyExact, NoSkip, NMIAlways, MaskRespected checked by TLC). (1) for every model state x %d concrete instruction variants of the 10 model instructions x %d data-lattice points (PC incl. wrap, SP incl. wrap and stack overlapping PC, I x vector, mode-0 data RST 00..38 and CALL nn, HALT flag): build the concrete representative (depth = real return frames, pend = a real request object matching IM), perform one real Step, abstract the result and require it to be a TLC successor of the state under that driver action; then check the concrete obligations of the edge taken (target PC, pushed address, IFF1/IFF2, request consumed or identical object still pending, no program fetch on acceptance, executed instruction identical to refz80's Step without request, handler counters). (2) BFS over the implementation's own transitions from the initial concrete state, every transition validated against the graph. (3) every implemented encoding: RETN/RETI handlers notified exactly by ED 45/ED 4D (also with nil handlers). (4) mode 0: every implemented encoding except CALL/RST delivered as request data x quick lattice x 4 F, compared with refz80 executing that instruction (registers, flags, writes, ports, notifications; IFF1=IFF2=0; no program-memory read inside [PC,PC+len); PC/R/halted not compared). Request shapes: constructor-built, mode 1 with a data byte, mode 2 with an odd vector (dispatch target not judged). After every executed (not accepting) Step the same Step is repeated with a device raising an NMI from the k-th callback for every k (memory and port accesses, RETN/RETI notifications): that request must be what is pending afterwards. (5) the request constructors for all 256 bytes: documented type and data, storage of its own per call (in-place edits and appends do not reach other requests). The implementation BFS reuses one request object per kind with re-pointed Data, installs a fresh Memory object before every Step (accesses through an older object are errors) and checks the dispatch target of every acceptance. Non-trivial = an edge with a pending request or an interrupt-control instruction (counted).", len(g.states), g.edges, len(instrs), len(lat))
+	c.Rule = fmt.Sprintf("TLC generates the complete state graph of models/Z80Int.tla (MaxNest=3; %d distinct states, %d edges; model invariants AcceptClears, NotifyExact, NoSkip, NMIAlways, MaskRespected checked by TLC). (1) for every model state x %d concrete instruction variants of the 10 model instructions x %d data-lattice points (PC incl. wrap, SP incl. wrap and stack overlapping PC, I x vector, mode-0 data RST 00..38 and CALL nn, HALT flag): build the concrete representative (depth = real return frames, pend = a real request object matching IM), perform one real Step, abstract the result and require it to be a TLC successor of the state under that driver action; then check the concrete obligations of the edge taken (target PC, pushed address, IFF1/IFF2, request consumed or identical object still pending, no program fetch on acceptance, executed instruction identical to refz80's Step without request, handler counters). (2) BFS over the implementation's own transitions from the initial concrete state, every transition validated against the graph. (3) every implemented encoding: RETN/RETI handlers notified exactly by ED 45/ED 4D (also with nil handlers). (4) mode 0: every implemented encoding except CALL/RST delivered as request data x quick lattice x 4 F, compared with refz80 executing that instruction (registers, flags, writes, ports, notifications; IFF1=IFF2=0; no program-memory read inside [PC,PC+len); PC/R/halted not compared). Request shapes: constructor-built, mode 1 with a data byte, mode 2 with an odd vector (dispatch target not judged). After every executed (not accepting) Step the same Step is repeated with a device raising an NMI from the k-th callback for every k (memory and port accesses, RETN/RETI notifications): that request must be what is pending afterwards. (7) an NMI is accepted as usual with CPU.IM outside 0..2. (5) the request constructors for all 256 bytes: documented type and data, storage of its own per call (in-place edits and appends do not reach other requests). The implementation BFS reuses one request object per kind with re-pointed Data, installs a fresh Memory object before every Step (accesses through an older object are errors) and checks the dispatch target of every acceptance. Non-trivial = an edge with a pending request or an interrupt-control instruction (counted).", len(g.states), g.edges, len(instrs), len(lat))
 	c.Bound = "nesting depth 3; data lattice " + c.Tier
 	var n, nt, skipped int64
 	failedKeys := map[string]bool{}
@@ -682,6 +682,8 @@ func checkC06(c *Ctx) {
 	c06IM0All(c)
 	// (5) the request constructors hand every caller an object of its own
 	c06Constructors(c)
+	// (7) "an NMI is always accepted": also when the exported IM field holds a value outside 0..2
+	c06NMIAnyMode(c)
 	// (6) handlers (and port devices) of unusual Go shapes
 	runDeviceShapes(c, "c06/shapes")
 	c.Exhaustive = true
@@ -955,6 +957,40 @@ func c06Constructors(c *Ctx) {
 		r1.Type = z80.InterruptType(9)
 		if r3 := m.f(); r2.Type != m.t || r3.Type != m.t {
 			bad(m.name, 0, m.name+"(): editing one request changed another")
+		}
+	}
+	c.Evaluations += n
+	c.Traces += n
+	c.Nontrivial += n
+}
+
+// c06NMIAnyMode: the interrupt mode does not concern the NMI. IM is an exported int; whatever an embedder
+// left in it (-1 for "unset", an unmasked snapshot byte), an NMI is accepted exactly as in modes 0..2.
+func c06NMIAnyMode(c *Ctx) {
+	w := newWorker(obsBackground(c))
+	var n int64
+	for _, im := range []int{-1, 3, 4, 7, 255, 1 << 20, -1 << 20} {
+		for iff := 0; iff < 4; iff++ {
+			for _, halt := range []bool{false, true} {
+				base := baseVector(1)
+				s := base.S
+				s.PC, s.SP, s.IM = 0x0100, 0x8000, im
+				s.IFF1, s.IFF2, s.Halt = iff&1 != 0, iff&2 != 0, halt
+				cs := Case{S: s, Bytes: []uint8{0x00}}
+				w.setup(&cs)
+				req := z80.NMIInterrupt()
+				w.cpu.Interrupt = req
+				pan := c02Step(&w.cpu)
+				got := fromCPU(&w.cpu)
+				n++
+				exp := s
+				exp.PC, exp.SP, exp.IFF1, exp.IFF2 = 0x0066, 0x7FFE, false, s.IFF1
+				exp.R, exp.Halt = got.R, got.Halt
+				if pan != nil || w.cpu.Interrupt != nil || got != exp || w.imem.Peek16(0x7FFE) != 0x0100 {
+					c.Report("c06/nmi-any-mode", int64(im), "", map[string]interface{}{"im": im, "iff1": s.IFF1, "iff2": s.IFF2}, []string{fmt.Sprintf("NMI pending with CPU.IM=%d (outside 0..2), IFF1=%v IFF2=%v: accepted=%v, panic %v; want %v got %v, pushed %04X (want 0100)", im, s.IFF1, s.IFF2, w.cpu.Interrupt == nil, pan, stateMap(&exp), stateMap(&got), w.imem.Peek16(0x7FFE))})
+					break
+				}
+			}
 		}
 	}
 	c.Evaluations += n
